@@ -26,7 +26,7 @@ func (c11) ID() string { return "C11" }
 func (c11) HarnessRacesAreSignals() bool { return true }
 func (c11) Level() string                { return "exploration" }
 func (c11) Rule() string {
-	return "unit = one executed schedule: up to three transactions (each a program of 1..4 read-only or writing accesses to the cache names A/B with callbacks that may fail, constructors that may fail, optional sibling goroutines inside the transaction (reading; writing only in schedules whose other transactions all read), then Commit(false|true)) run concurrently on one cache.Manager with size limit -1, 0 or small, with Release calls at random moments; the interleaving is steered by seeded delays at the verif pause points inside Transaction.With / Commit and inside the callbacks, and by writers parked inside their callback while readers are issued. Online monitor in the instrumented callbacks (objects are harness Cachables with serial numbers): (1) no callback of another transaction on an object between a transaction's first writing entry and its call of Commit, and no writer entering while another transaction's reader is inside; (2) an object that a failed transaction wrote or failed on is never handed to a callback again; (3) a read-only access issued while a writer is parked inside its callback starts its callback on a different object instead of blocking; (4) after everyone finished, a fresh writing transaction on every name completes; plus the race detector over the callbacks' plain field writes. Non-trivial = at least two transactions touched the same name, one of them writing; distinct by (programs, observed entry order)."
+	return "unit = one executed schedule: up to three transactions (each a program of 1..4 read-only or writing accesses to the cache names A/B with callbacks that may fail, constructors that may fail, optional sibling goroutines inside the transaction (reading; writing only in schedules whose other transactions all read), then Commit(false|true)) run concurrently on one cache.Manager with size limit -1, 0 or small, with Release calls at random moments; the interleaving is steered by seeded delays at the verif pause points inside Transaction.With / Commit and inside the callbacks, and by writers parked inside their callback while readers are issued. Online monitor in the instrumented callbacks (objects are harness Cachables with serial numbers): (1) no callback of another transaction on an object between a transaction's first writing entry and its call of Commit, and no writer entering while another transaction's reader is inside; (2) an object that a failed transaction wrote or failed on - or built in a read-only access after it had started writing that name (its own cache having left the manager meanwhile) - is never handed to a callback again; (3) a read-only access issued while a writer is parked inside its callback starts its callback on a different object instead of blocking; (4) after everyone finished, a fresh writing transaction on every name completes; plus the race detector over the callbacks' plain field writes. Non-trivial = at least two transactions touched the same name, one of them writing; distinct by (programs, observed entry order)."
 }
 func (c11) Assumptions() []string {
 	return []string{"'touched by a failed transaction' = written by it or failed on; caches it merely read may be reused", "ownership ends when Commit is called (not when it returns)", "race reports inside manager.go itself are attributed to C09's safety clause and only counted here"}
@@ -62,7 +62,11 @@ type c11obj struct {
 	readers sync.Map     // tx id -> *atomic.Int64 (active read callbacks)
 	dead    atomic.Bool
 	deadBy  atomic.Int64 // transaction that killed it
-	scratch int          // plain field: overlapping callbacks of different transactions are a data race
+	// the transaction that built this object in a read-only access AFTER it had started writing
+	// the same name (its own cache had left the manager meanwhile): the object shows that
+	// transaction's uncommitted view and dies with it if it fails
+	taintedBy atomic.Int64
+	scratch   int // plain field: overlapping callbacks of different transactions are a data race
 }
 
 func (o *c11obj) SizeInMemory() int64 { return o.size }
@@ -84,6 +88,8 @@ type c11tx struct {
 	// mutex orders their accesses to the plain field so that the race detector
 	// only reports overlaps between DIFFERENT transactions
 	mu sync.Mutex
+	// names this transaction has started writing (set inside its writing callbacks, under mu)
+	wrote map[string]bool
 }
 
 type c11world struct {
@@ -139,6 +145,13 @@ func (w *c11world) access(t *cache.Transaction, tx *c11tx, a c11access, idx int,
 			return nil, errConstruct
 		}
 		o := &c11obj{serial: w.serial.Add(1), name: a.name, size: 100}
+		if a.readOnly {
+			tx.mu.Lock()
+			if tx.wrote[a.name] {
+				o.taintedBy.Store(tx.id)
+			}
+			tx.mu.Unlock()
+		}
 		w.mu.Lock()
 		w.objs = append(w.objs, o)
 		w.mu.Unlock()
@@ -173,6 +186,12 @@ func (w *c11world) access(t *cache.Transaction, tx *c11tx, a c11access, idx int,
 		// plain field access: overlapping callbacks of different transactions race
 		tx.mu.Lock()
 		o.scratch++
+		if !a.readOnly {
+			if tx.wrote == nil {
+				tx.wrote = map[string]bool{}
+			}
+			tx.wrote[a.name] = true
+		}
 		tx.mu.Unlock()
 		w.delay("in-callback", tx.id, idx)
 		if a.park && parked != nil {
@@ -521,7 +540,7 @@ func clearOwner(w *c11world, tx int64) {
 
 func markDead(w *c11world, tx int64) {
 	for _, o := range w.objsCopy() {
-		if o.owner.Load() == tx {
+		if o.owner.Load() == tx || o.taintedBy.Load() == tx {
 			o.deadBy.CompareAndSwap(0, tx)
 			o.dead.Store(true)
 		}
